@@ -23,8 +23,8 @@ CLAIMS = {
  "C12": ("proof", "FindConfig's postcondition is the four-step lookup order per device type for every presence combination; the walk callback is proved total under Walk's calling convention, to leave the map unchanged when a file fails to parse and to add exactly the parsed entry otherwise; LoadDeviceConfigs is proved to load each of the four directories into its own map.", "6 C12"),
  "C13": ("proof", "Panic's loop invariant gives exactly CC123 + 128 Note Offs on the current channel and nothing else; its frame leaves trackers, counters and playing state untouched; carried through invokeActionPress and handleKEYEvent.", "6 C13"),
  "C14": ("proof", "checkExitSequence returns true and signals exactly when the sequence is non-empty and all its keys are in keyTracker (loop invariant); handleKEYEvent's clauses: signal iff the press completes the sequence, and then no output, no state change, no note, no action.", "6 C14"),
- "C16": ("proof", "PARTIAL claim, four parts. (1) No unsynchronised writes: the lock discipline is a set of contracts - ghost lock set updated by Lock/Unlock, ghost 'concurrent' flag set by go statements and cleared by WaitGroup.Wait; every write to a guarded Device field or to a map held in one is an obligation 'its mutex is held, or no other goroutine of the device runs', and the mutating methods carry that as an implicit precondition, so it holds for every schedule without exploring schedules; Lock of a mutex the goroutine already holds, Unlock of a free mutex and unbalanced locking are call-site / postcondition obligations (self-deadlock freedom of the event thread and the MIDI-input thread, a necessary condition of 'ends promptly'); externalTrackerMutex has a monitor invariant (assumed at Lock with the guarded handle arbitrary, obligation at Unlock). (2) No cross-talk through shared state: NewDevice's postcondition that every mutable container of a new device (all maps including the per-channel inner maps, both mutexes) is freshly allocated by that call, plus two mechanical scans (not proof): no package-level variable is written after init, and no map / slice / pointer obtained from a package-level variable is stored into a field, map or slice. (3) Reader side: the LED loop is not under contract; a mechanical must-lockset dataflow scan (labelled as a scan, not counted as proof) checks that each of its accesses to guarded state happens with the mutex held on every path. (4) Goroutine life cycle, the safety part of 'ends promptly and leaves nothing behind': obligations at wg.Wait that every context handed to a started goroutine has been cancelled and that WaitGroup.Add equals the number of goroutines started with the group; handleInputEvents calls Done exactly once on every return path (deferred extern calls are applied at return); the callee's precondition is checked at each go statement with an empty lock set. NOT decided (listed in the evidence): that the goroutines actually leave their loops when cancelled (liveness).", "6 C16"),
- "C17": ("proof", "PARTIAL claim. Decided: MIDI-input tracking - assertions at the two write sites of handleInputEvents (set only for Note On with velocity > 0 of that note/channel; cleared for Note Off and Note On with velocity 0; the map written is the one d.externalNoteTracker holds for that channel at that moment - the handle is arbitrary at every acquire of the mutex, so a stale handle does not verify), accessor contracts for Event.Type/Channel/Note, and Panic's postcondition that the external tracker is replaced by 16 empty maps. NOT decided (listed in the evidence): the LED colour computation and 'all LEDs red on disconnect' (goroutine body interleaved with network I/O and a third-party float colour library).", "6 C17"),
+ "C16": ("proof", "PARTIAL claim, four parts. (1) No unsynchronised writes: the lock discipline is a set of contracts - ghost lock set updated by Lock/Unlock, ghost 'concurrent' flag set by go statements and cleared by WaitGroup.Wait; every write to a guarded Device field or to a map held in one is an obligation 'its mutex is held, or no other goroutine of the device runs', and the mutating methods carry that as an implicit precondition, so it holds for every schedule without exploring schedules; Lock of a mutex the goroutine already holds, Unlock of a free mutex and unbalanced locking are call-site / postcondition obligations (self-deadlock freedom of the event thread and the MIDI-input thread, a necessary condition of 'ends promptly'); externalTrackerMutex has a monitor invariant (assumed at Lock with the guarded handle arbitrary, obligation at Unlock). (2) No cross-talk through shared state: NewDevice's postcondition that every mutable container of a new device (all maps including the per-channel inner maps, both mutexes) is freshly allocated by that call, plus two mechanical scans (not proof): no package-level variable is written after init, and no map / slice / pointer obtained from a package-level variable is stored into a field, map or slice. (3) Reader side: the LED loop handleOpenrgb and the MIDI-input thread are under contract with 'guardedreads' - every read of a guarded field and every lookup / range step on a map held in one is an obligation 'its mutex is held'; the LED loop is a declared reader of eventProcessMutex (a write by it is a failing obligation), which justifies the single-writer rule that the event thread keeps its knowledge across Lock while the LED loop knows only the monitor invariant after Lock; locks balanced and no re-entrant Lock through all 23 loops of the LED loop; its clock, network and colour-library calls are unconstrained externs. The must-lockset scan stays as a mechanical second line for goroutines not under contract (labelled as a scan, not counted as proof). (4) Goroutine life cycle, the safety part of 'ends promptly and leaves nothing behind': obligations at wg.Wait that every context handed to a started goroutine has been cancelled and that WaitGroup.Add equals the number of goroutines started with the group; handleInputEvents calls Done exactly once on every return path (deferred extern calls are applied at return); the callee's precondition is checked at each go statement with an empty lock set. NOT decided (listed in the evidence): that the goroutines actually leave their loops when cancelled (liveness).", "6 C16"),
+ "C17": ("proof", "PARTIAL claim. Decided: MIDI-input tracking - assertions at the two write sites of handleInputEvents (set only for Note On with velocity > 0 of that note/channel; cleared for Note Off and Note On with velocity 0; the map written is the one d.externalNoteTracker holds for that channel at that moment - the handle is arbitrary at every acquire of the mutex, so a stale handle does not verify), accessor contracts for Event.Type/Channel/Note, Panic's postcondition that the external tracker is replaced by 16 empty maps, and 'on disconnect all LEDs turn red' as a postcondition of the LED loop handleOpenrgb (if any frame was sent, the last frame sent is all red: ghost frame counter and flag updated by the assumed contract of UpdateLEDs, loop invariant of the final loop). NOT decided (listed in the evidence): the LED colours of a regular frame (attempted, withdrawn as unstable: DESIGN section 10).", "6 C17"),
  "C18": ("proof", "Contracts over a ghost file system (existence and abstract content per path; every OS call may fail, a write into a file that was not created or truncated by its open yields an unknown content). Proved for updateHIDIConfiguration and its two walk callbacks, for EVERY initial state: (1) factory update callback: on success its entry exists and a file equals its template; it changes no other path; it writes nothing when the entry is already right; (2) both properties are lifted over fs.WalkDir by a per-entry postcondition that is proved stable under calls for other entries, and by walk relations proved reflexive and transitive; (3) top level: after a successful run on an existing directory every template entry below factory/ is present and identical; on a missing directory every template entry exists; an existing blacklist is never written and a created one holds the template; nothing is deleted; nothing outside factory/ and the blacklist changes when the directory exists (user files, hidi.toml); when everything is already restored nothing is written (running again changes nothing); plus call-site obligations on every os.OpenFile / os.Mkdir / fs.WalkDir path and flag. 'A later run restores the factory files after an interruption' is covered because (3) holds from any initial state. NOT decided: content of files written by the tree creation; that a missing blacklist is always created; WalkDir and the OS-call contracts themselves (assumed).", "6 C18"),
  "C20": ("proof", "contains/containsOnly (nested loops, labelled continue) are proved to test set inclusion of handler types, DetermineDeviceType is proved to be the stated function of the SET of handler types (hence order independent), Normalize's grouping phase is proved (loop invariant: every input handler is in the group of its location, groups hold only that location) together with panic-freedom of the whole function. The device-construction phase of Normalize is covered by a bounded stand-in on the real code (labelled bounded, not counted as proved).", "6 C20"),
 }
